@@ -48,7 +48,10 @@ Definition ntol (impl model : Q) : bool := close_rel (1 # 10000) (1 # 10000) imp
 Definition ntol_c (scale : Q) (impl model : Q) : bool :=
   close_rel (1 # 10000) ((1 # 10000) + (1 # 10000) * scale) impl model.
 
-Record c09_case := mkC09 { c09_props : eprops; c09_impl : n50data; c09_finite : bool }.
+(* c09_meta_test: the blower-door result of the model itself (meta.n50_test_ach): the reported props must hand it on *)
+Record c09_case := mkC09 { c09_props : eprops; c09_impl : n50data; c09_finite : bool; c09_meta_test : option Q }.
+Definition optq_eqb (a b : option Q) : bool :=
+  match a, b with None, None => true | Some x, Some y => Qeq_bool x y | _, _ => false end.
 
 Definition near (x t : Q) : bool := qltb (Qabs (x - t)) (1 # 100000).
 
@@ -60,6 +63,7 @@ Definition agree_C09 (c : c09_case) : N :=
                | None => 0 end in
   if near (nd_vol m) (1 # 1000) || near (nd_walls_a m) (1 # 1000) || near (nd_windows_a m) (1 # 1000) then 0%N
   else first_fail [
+    (8%N, optq_eqb (gp_n50test (ep_global p)) (c09_meta_test c));
     (9%N, c09_finite c);
     (1%N, ntol (nd_n50_ref i) (nd_n50_ref m));
     (2%N, ntol (nd_n50 i) (nd_n50 m));
